@@ -72,7 +72,7 @@ func run(r *simkit.Run) {
 	time.Sleep(time.Duration(20*365+r.C.Intn(2000, "epoch-days")) * 24 * time.Hour)
 	r.MarkEpoch()
 
-	batch := simkit.Pick(r.C, "batch", 8, 8, 6, 6, 4, 1)
+	batch := simkit.Pick(r.C, "batch", 8, 8, 6, 6, 6, 1)
 	if v := os.Getenv("STORESIM_BATCH"); v != "" { // debugging aid only
 		batch = int(v[0] - '0')
 	}
